@@ -5,11 +5,13 @@ CATS = ('"a"', '"b"', "None")
 NUMS = ("1.0", "2.5", "NAN")
 
 
-def data_params(tree, n, weights=False, special=False, mode="real", prefix="", cats=2, nums=2, wsign="pos"):
+def data_params(tree, n, weights=False, special=False, mode="real", prefix="", cats=2, nums=2, wsign="pos", fix_leaf_y=False):
     """Symbolic stream of n records for `tree`.
 
     returns (params, pre_terms, code) where code defines lists ``{prefix}data`` and ``{prefix}ws``.
-    special: every float datum may also be NaN/+inf/-inf through a symbolic selector (real mode).
+    special: (real mode) the caller passes Harness(special=SPECIAL_XY) so that x/y arguments also range over
+    nan/+-inf; here it only relaxes the sparse-range precondition accordingly.
+    In real mode every float argument is a finite real by construction (engine/chmodel.py).
     """
     params, pre, recs, ws = [], [], [], []
     for i in range(1, n + 1):
@@ -20,26 +22,14 @@ def data_params(tree, n, weights=False, special=False, mode="real", prefix="", c
             params.append((f"{prefix}x{i}", "float"))
             x = f"{prefix}x{i}"
             if "x" in tree.sparse:
-                pre.append(f"-2.0 <= {x} < 2.0")
-            elif mode == "real":
-                pre.append(f"finite({x})")
-            if mode == "real":
-                if special:
-                    params.append((f"{prefix}sx{i}", "int"))
-                    pre.append(f"0 <= {prefix}sx{i} <= 3")
-                    x = f"sel({prefix}sx{i}, {x}, NAN, INF, -INF)"
-        if tree.uses_y:
+                pre.append(f"-2.0 <= {x} < 2.0" if not special else f"({x} != {x} or {x} in (INF, -INF) or -2.0 <= {x} < 2.0)")
+        if tree.uses_y and fix_leaf_y and tree.y_leaf_only:
+            y = {"": "0.25", "a": "0.25", "b": "-0.5", "e": "1.75"}.get(prefix, "0.75") + f" * {i}"
+        elif tree.uses_y:
             params.append((f"{prefix}y{i}", "float"))
             y = f"{prefix}y{i}"
             if "y" in tree.sparse:
-                pre.append(f"-2.0 <= {y} < 2.0")
-            elif mode == "real":
-                pre.append(f"finite({y})")
-            if mode == "real":
-                if special:
-                    params.append((f"{prefix}sy{i}", "int"))
-                    pre.append(f"0 <= {prefix}sy{i} <= 3")
-                    y = f"sel({prefix}sy{i}, {y}, NAN, INF, -INF)"
+                pre.append(f"-2.0 <= {y} < 2.0" if not special else f"({y} != {y} or {y} in (INF, -INF) or -2.0 <= {y} < 2.0)")
         if tree.uses_c:
             params.append((f"{prefix}c{i}", "int"))
             pre.append(f"0 <= {prefix}c{i} < {cats}")
@@ -52,9 +42,7 @@ def data_params(tree, n, weights=False, special=False, mode="real", prefix="", c
         if weights:
             params.append((f"{prefix}w{i}", "float"))
             if wsign == "pos":
-                pre.append(f"finite({prefix}w{i}) and {prefix}w{i} > 0.0" if mode == "real" else f"{prefix}w{i} > 0.0")
-            elif mode == "real":
-                pre.append(f"finite({prefix}w{i})")
+                pre.append(f"{prefix}w{i} > 0.0")
             ws.append(f"{prefix}w{i}")
         else:
             ws.append("1.0")
@@ -68,3 +56,6 @@ def bounds_text(tree, n, **kw):
         parts.append("sparse-indexed fields %s restricted to [-2, 2) (4 bin indexes)" % sorted(tree.sparse))
     parts += [f"{k}={v}" for k, v in kw.items()]
     return "; ".join(parts)
+
+
+SPECIAL_XY = r"^[abe]?[xy]\d+(_\d+)?$"
